@@ -206,6 +206,31 @@ def _carrying(repo: Repo, t) -> bool:
     return False
 
 
+def _may_hold_filters(repo: Repo, t, depth: int = 0) -> bool:
+    """Conservative: False only if the static type is known and neither it nor what its constructor takes / its annotated
+    attributes hold can carry module filters (flags, strings, classes made of those)."""
+    ms = _members(t)
+    if not ms:
+        return True
+    for m in ms:
+        if m[0] == "b" and m[1] in ("bool", "str", "int", "none", "float"):
+            continue
+        if m[0] == "cls" and depth < 2 and not _carrying(repo, m):
+            ci = repo.classes.get(m[1])
+            if ci is None or ci.bases:
+                return True
+            init = repo.lookup_method(ci, "__init__")
+            anns = [p.annotation for p in init.params[1:]] if init is not None else list(ci.ann_attrs.values())
+            if any(a is None for a in anns):
+                return True
+            T = types_of(repo)
+            if any(_may_hold_filters(repo, T.ann(ci.module, a), depth + 1) for a in anns):
+                return True
+            continue
+        return True
+    return False
+
+
 def _scalar_type(t) -> bool:
     ms = _members(t)
     return bool(ms) and all(m[0] == "b" and m[1] in ("bool", "str", "int", "none", "float") for m in ms)
@@ -662,6 +687,22 @@ def run_r1(repo: Repo, res: Result) -> None:
                             return True
             return False
 
+        pre_relevance: dict[str, bool] = {}
+
+        def relevant_pre(tag: str) -> bool:
+            """Can the state `pre:self.<field>` hold module filters at all?  An object travelling together with the requirement
+            (the behaviour flags handed to the same helper object) leaves its tag on the whole, but says nothing about filters."""
+            if tag not in pre_relevance:
+                name = tag[9:] if tag.startswith("pre:self.") else ""
+                verdicts = []
+                for ci in classes:
+                    for m_ in [*ci.methods.values(), *ci.extra_methods]:
+                        for n_ in own_nodes(m_.node):
+                            if isinstance(n_, ast.Attribute) and n_.attr == name and isinstance(n_.value, ast.Name) and n_.value.id == "self" and isinstance(n_.ctx, ast.Load):
+                                verdicts.append(_may_hold_filters(repo, T.expr(m_, n_)))
+                pre_relevance[tag] = (not verdicts) or any(verdicts)
+            return pre_relevance[tag]
+
         def make_prov(forced: dict[int, bool] | None = None) -> Provenance:
             def assume2(st_if: ast.If, state: dict):
                 if forced and id(st_if) in forced:
@@ -795,7 +836,7 @@ def run_r1(repo: Repo, res: Result) -> None:
             def excuse(t):  # noqa: ANN001
                 """(pre tags that count, does the value come from the conversion or from a regex-free specification, sides delivered)"""
                 acc_sides = {x[4:] for x in t if x.startswith("raw:")}
-                pre_ = sorted(x for x in t if x.startswith("pre:"))
+                pre_ = sorted(x for x in t if x.startswith("pre:") and relevant_pre(x))
                 raw_fine = bool(acc_sides) and acc_sides <= raw_ok and all(x in spec_fields for x in pre_)
                 if raw_fine:
                     pre_ = []
